@@ -332,3 +332,41 @@ def c_flat_map_future_like(v: int, kind: int, k: int, form: int, via_error_fn: b
     if kind == 1:
         return out.exception() is inner_exc
     return isinstance(out.exception(), TypeError)
+
+
+class Pipeline(list):
+    """A callable that happens to be falsy: a list of steps applied in order; with no steps len() == 0."""
+
+    def __init__(self, tag):
+        list.__init__(self)
+        self.calls = []
+        self.tag = tag
+
+    def __call__(self, x):
+        self.calls.append(x)
+        return (self.tag, x)
+
+
+def c_falsy_callable_is_still_called(v: int, form: int, flat: bool, as_error_fn: bool) -> bool:
+    """
+    pre: 0 <= form <= 1
+    post: __return__
+    """
+    # "omitted functions act as identity" - a function that was given is called, even if the object is falsy
+    p = Pipeline("p")
+    if flat:
+        fn = Pipeline("q")
+        fn.__class__ = type("FlatPipeline", (Pipeline,), {"__call__": lambda self, x: (self.calls.append(x), f_return(("q", x)))[1]})
+    else:
+        fn = p
+    if as_error_fn:
+        out = _apply(form, _mk_input(True, v, E1("input")), None, fn, flat=flat)
+        exp_arg_ok = len(fn.calls) == 1 and isinstance(fn.calls[0], E1)
+        if not out.done() or not exp_arg_ok:
+            return False
+        r = out.result()
+        return r[0] == ("q" if flat else "p") and isinstance(r[1], E1)
+    out = _apply(form, _mk_input(False, v, None), fn, None, flat=flat)
+    if not out.done() or fn.calls != [v]:
+        return False
+    return out.result() == (("q" if flat else "p"), v)
